@@ -82,7 +82,9 @@ CLAIMED = {
              "constructor): addition is commutative and associative field for field, the empty duration is the identity, "
              "d + (-1*d) is empty, n*d equals n-fold addition, 1W=7D=168H..., == holds exactly when years, months and the "
              "exact remainder match (an equivalence), equal durations hash equally, and <,<=,>,>= are the order of the "
-             "rough length (common-year length, 30-day month), hence mutually consistent. Integer components for all Int. "
+             "rough length (common-year length, 30-day month), hence mutually consistent; Props/C11ord: a strict order / total "
+             "preorder (C11_order_strict) compatible with + (C11_order_add_compat) and with * n, n >= 0 (C11_order_mul_mono). "
+             "Integer components for all Int. "
              "Fractional hours/minutes/seconds (the only components the constructor lets be fractional: C11q_constructor_accepts): "
              "Props/C11q proves the same laws over the model DurationQ with rational h/mi/s (C11q_eq_iff, C11q_hash(_iff), "
              "C11q_add_comm/assoc/zero/inverse, C11q_mul_is_repeated_add, C11q_units(_frac), C11q_order(_mutual), "
